@@ -119,44 +119,3 @@ Print Assumptions C03_polarization_by_name.
 Print Assumptions C03_parallel.
 Print Assumptions C03_collinear.
 Print Assumptions C03_parallel_counter.
-
-(* ---- composition with the generated kinematics / wrappers / grid-resolution / simple phase-matching models (Proofs/Compose_*.v) ---- *)
-From SpdVerif Require Import Gen.Wrappers Proofs.Compose_wrappers.
-
-(* The methods of the SPDC object through which the rest of the crate reaches delta_k and the optimum idler, as translated from
-   src/spdc/spdc_obj.rs (Gen/Wrappers.v: which callee, which arguments, in which order).  `uval` is the sum of the value types handed
-   around; crate_delta_k / crate_try_new_optimum are delta_k_model / optimum_idler with their parameters in the order of the Rust
-   signatures (delta_k(omega_s, omega_i, signal, idler, pump, crystal_setup, pp); try_new_optimum(signal, pump, crystal_setup, pp));
-   spdc_of builds the record of fields.  SPDC::delta_k(omega_s, omega_i) is the delta_k of this file at (omega_s, omega_i) — in that
-   order — on the object's own signal, idler, pump and poling: *)
-Theorem C03_spdc_delta_k : forall index s i p pm cp q zs zi ws wi,
-  SPDC_delta_k_gen (crate_delta_k index) (spdc_of s i p pm cp q zs zi) (UFreq ws) (UFreq wi) = UVec (delta_k_model index ws wi s i p q).
-Proof. exact wrap_delta_k_model. Qed.
-Print Assumptions C03_spdc_delta_k.
-
-(* SPDC::optimum_idler() is the optimum idler of this file for the object's signal, pump, phase-matching type and poling *)
-Theorem C03_spdc_optimum_idler : forall index s i p pm cp q zs zi,
-  SPDC_optimum_idler_gen (crate_try_new_optimum index) (spdc_of s i p pm cp q zs zi) =
-  match optimum_idler index pm cp s p q with Some o => Some (UBeam o) | None => None end.
-Proof. exact wrap_optimum_idler_model. Qed.
-Print Assumptions C03_spdc_optimum_idler.
-
-(* SPDC::assign_optimum_idler() stores that idler with the waist of the idler it replaces, changes nothing else, and stores nothing
-   when try_new_optimum fails *)
-Theorem C03_spdc_assign_optimum_idler : forall index s i p pm cp q zs zi,
-  SPDC_assign_optimum_idler_gen (crate_try_new_optimum index) crate_waist crate_set_waist (spdc_of s i p pm cp q zs zi) =
-  match optimum_idler index pm cp s p q with
-  | Some o => Some (spdc_of s (mkBeam (b_pol o) (b_phi o) (b_theta o) (b_omega o) (b_dir o) (b_waist i)) p pm cp q zs zi)
-  | None => None
-  end.
-Proof. exact wrap_assign_optimum_idler_model. Qed.
-Print Assumptions C03_spdc_assign_optimum_idler.
-
-(* SPDC::assign_optimum_crystal_theta() switches the poling off first, then replaces the crystal setup by
-   crystal_setup.assign_optimum_theta(signal, pump); the idler is not recomputed (try_as_optimum calls assign_optimum_idler next) *)
-Theorem C03_spdc_assign_optimum_crystal_theta : forall (obj : Type) (off : obj) (aot : obj -> obj -> obj -> obj) (s : spdc obj),
-  SPDC_assign_optimum_crystal_theta_gen off aot s =
-    mk_spdc (signal s) (idler s) (pump s) (aot (crystal_setup s) (signal s) (pump s)) off
-            (signal_waist_position s) (idler_waist_position s).
-Proof. exact wrap_assign_optimum_crystal_theta. Qed.
-Print Assumptions C03_spdc_assign_optimum_crystal_theta.
